@@ -136,8 +136,10 @@ func (res *relayEntrySubmitter) waitForSubmissionEligibility(
 		big.NewInt(int64(groupSize)),
 	).Uint64()
 
+	// Member indexes are one-based while the first submitter index and the
+	// submission queue are zero-based.
 	submissionQueueIndex := calculateSubmissionQueueIndex(
-		uint64(res.index),
+		uint64(res.index)-1,
 		firstSubmitterMemberIndex,
 		uint64(groupSize),
 	)
